@@ -23,6 +23,12 @@ RULE = ('generated probe directories run through the real Merger (its six channe
         'table widths 1..3, optional matrices present in all / some / no probes, (n,) and (n,1) channel maps; every probe has '
         'spikes whose templates use all / all but the trailing / all but a middle / a random subset of its templates '
         '(cross-property clause 27: merged spike_templates against merged templates.npy and template_feature_ind.npy). '
+        'HISTORY: ~30% of the random cases (and 4 forced corpus cases that run first) perform 1..3 earlier merges IN THE SAME '
+        'PROCESS over the same probe directories (the same list again, a prefix - A+B then A+B+C -, a suffix, a permutation, '
+        'a single probe, a random sublist) before the observed merge, ~10% run the observed merge twice on one Merger object; '
+        'MATRIX VALUES: ~60% of the probes carry entries that float32 cannot hold (0.1, 1/3, 1+2^-30, 1e-50, 2^24+1) - kept '
+        'exactly by float64 files, rounded once at materialisation by float32 files - so that float32 and float64 matrices '
+        'with full-precision entries meet in one merge in either order. '
         'Non-trivial = at least two probes and the merge produced the arrays; distinct = distinct abstract input.')
 EXHAUSTIVE = {'quick': True, 'thorough': True}
 CLAUSES = {
@@ -43,7 +49,9 @@ ASSUMES = ['every probe has >= 1 channel, >= 1 template, >= 1 waveform sample, t
            'exercise the AssertionError exit of write_templates: model undefined, nothing but code 1 can be raised there), '
            'table widths and sample rate; '
            'templates have as many channels as the channel map; index-table entries are valid local indices; x >= 0',
-           'values are small integers / dyadic numbers exact in float32, coordinates multiples of 1/4 (exact regime)']
+           'template values are small integers / dyadic numbers exact in float32, coordinates multiples of 1/4 (exact regime); '
+           'matrix entries are any finite doubles, given to the model as the probe file holds them',
+           'earlier merges of a history write into their own output directories and never into a probe directory']
 TIMEOUT = {'quick': 60, 'thorough': 120}     # a merge takes ~10 ms; generous because the machine may be heavily loaded
 MATCHERS = {}
 
@@ -111,6 +119,9 @@ def _case(rng, sizes, route=None, vec2d=None, **o):
     lits = o.pop('rate_lits', None)
     if lits is None:
         lits = [rng.choice(['float', 'float', 'int']) for _ in sizes]
+    pre = o.pop('pre', None)
+    mat_dtypes = o.pop('mat_dtypes', None)
+    again = o.pop('again', None)
     pres = o.pop('present', None)
     if pres is None:
         pres = {}
@@ -122,11 +133,43 @@ def _case(rng, sizes, route=None, vec2d=None, **o):
         po = dict(o)
         for name in ('wm', 'wmi', 'sim'):
             po[name] = pres[name][k]
+        if mat_dtypes is not None:
+            po['wm_dtype'], po['wmi_dtype'], po['sim_dtype'] = mat_dtypes[k]
         probes.append(M.gen_probe(rng, nc=nc, nt=nt, ns=nss[k], pcw=pcw, tfw=tfw, rate=rate, rate_lit=lits[k], **po))
     if route is None:
         route = 'merge' if rng.random() < 0.25 else 'methods'
-    return {'kind': 'merge', 'inp': {'route': route, 'vec2d': bool(rng.random() < 0.3) if vec2d is None else vec2d,
-                                     'probes': probes}}
+    if pre is None:
+        pre = _history(rng, len(sizes)) if rng.random() < 0.3 else []
+    if again is None:
+        again = 2 if rng.random() < 0.1 else 1
+    inp = {'route': route, 'vec2d': bool(rng.random() < 0.3) if vec2d is None else vec2d, 'probes': probes}
+    if pre:
+        inp['pre'] = [list(h) for h in pre]
+    if again != 1:
+        inp['again'] = again
+    return {'kind': 'merge', 'inp': inp}
+
+
+def _history(rng, n):
+    """Merges done earlier in the same process over the same probe directories: 1..3 lists of probe indices, each the
+    full list again, a prefix (probes sorted one after the other: A+B, then A+B+C), a suffix, a permutation, a single
+    probe or a random sublist in random order."""
+    out = []
+    for _ in range(rng.choice([1, 1, 1, 2, 3])):
+        kind = rng.choice(['full', 'prefix', 'prefix', 'suffix', 'perm', 'one', 'sub'])
+        idx = list(range(n))
+        if kind == 'prefix':
+            idx = idx[:rng.randint(1, n)]
+        elif kind == 'suffix':
+            idx = idx[rng.randrange(n):]
+        elif kind == 'perm':
+            rng.shuffle(idx)
+        elif kind == 'one':
+            idx = [rng.randrange(n)]
+        elif kind == 'sub':
+            idx = rng.sample(idx, rng.randint(1, n))
+        out.append(idx)
+    return out
 
 
 def _spikes(case, sts):
@@ -141,6 +184,22 @@ def _all(n):
 
 def generate(tier, rng):
     cases = []
+    # history axis: the observed merge comes after other merges of the same probe directories in the same process
+    # (A+B, then A+B+C; the same merge again; another order first), or is run twice on one Merger object
+    cases.append(_case(rng, [(2, 2), (3, 1), (1, 2)], route='methods', pre=[[0, 1]], again=1))
+    cases.append(_case(rng, [(2, 1), (1, 2)], route='methods', pre=[[0, 1]], again=1))
+    cases.append(_case(rng, [(1, 2), (2, 1), (2, 2)], route='merge', pre=[[0], [0, 1, 2]], again=1))
+    cases.append(_case(rng, [(2, 1), (1, 1), (1, 2)], route='methods', pre=[[2, 1, 0], [1, 2]], again=1))
+    cases.append(_case(rng, [(2, 2), (1, 1)], route='methods', pre=[], again=2, present=_all(2)))
+    cases.append(_case(rng, [(1, 1), (2, 2), (1, 2)], route='merge', pre=[], again=2))
+    # matrix dtypes mixed across probes with full-precision entries in the float64 files: single precision first /
+    # last / in the middle (block_diag keeps every block as it is and gives the result the widest dtype)
+    cases.append(_case(rng, [(2, 2), (2, 3)], route='methods', present=_all(2), fine=True, pre=[], again=1,
+                       mat_dtypes=[('float32', 'float32', 'float32'), ('float64', 'float64', 'float64')]))
+    cases.append(_case(rng, [(2, 2), (3, 1), (1, 2)], route='methods', present=_all(3), fine=True, pre=[], again=1,
+                       mat_dtypes=[('float64',) * 3, ('float32',) * 3, ('float64',) * 3]))
+    cases.append(_case(rng, [(1, 2), (2, 2)], route='merge', present=_all(2), fine=True, pre=[], again=1,
+                       mat_dtypes=[('float64',) * 3, ('float32',) * 3]))
     # corpus: inputs behind the repaired defects and one boundary case per clause
     cases.append(_case(rng, [(2, 2), (3, 1), (4, 2)], route='methods', present=_all(3)))        # k = 3, unequal sizes
     cases.append(_case(rng, [(2, 2), (3, 3), (4, 2)], route='methods', ind_dtype='int32', present=_all(3)))
@@ -269,7 +328,7 @@ def encode(case, obs):
         ps.append('(mkprobe %s %s %s %s %s %s %s %s (mkpar %s %s %s))' % (
             q.zl(p['cm']), q.lst(p['pos'], lambda r: '(mkxy %s %s)' % (q.z(r[0]), q.z(r[1]))),
             q.lst(p['tmpl'], _tll), q.zll(p['pc']), q.zll(p['tf']),
-            _opt(p.get('wm'), _tll), _opt(p.get('wmi'), _tll), _opt(p.get('sim'), _tll),
+            _opt(M.mat_stored(p, 'wm'), _tll), _opt(M.mat_stored(p, 'wmi'), _tll), _opt(M.mat_stored(p, 'sim'), _tll),
             _t(float(p['rate'])), q.z(p['ncd']), q.z(p['offset'])))
     sps = ['(mksp %s %s %d)' % (q.zl(M.spike_times(p, k)), q.zl(M.spike_templates(p)), len(p['tmpl']))
            for k, p in enumerate(inp['probes'])]
@@ -334,6 +393,22 @@ def dist(case, obs):
         out.append('merged_dtype_tables=%s/%s' % (od[4], od[5]))
         out.append('merged_dtype_whitening=%s' % od[6])
         out.append('merged_dtype_similar=%s' % od[8])
+    pre = inp.get('pre') or []
+    out.append('earlier_merges_in_process=%d' % len(pre))
+    if pre:
+        out.append('earlier_merge_same_first_probe=%s' % any(h[0] == 0 for h in pre))
+        out.append('earlier_merge_kinds=%s' % '+'.join(sorted(set(
+            'same' if h == list(range(len(ps))) else 'prefix' if h == list(range(len(h))) else
+            'single' if len(h) == 1 else 'other' for h in pre))))
+    out.append('runs_on_one_merger=%d' % int(inp.get('again') or 1))
+    for name in ('wm', 'wmi', 'sim'):
+        ms = [(M.probe_dtypes(p)[5 + ('wm', 'wmi', 'sim').index(name)], p.get(name)) for p in ps]
+        if all(m is not None for _, m in ms):
+            fine = [d == 'float64' and any(M.stored(v, 'float32') != v for r in m for v in r) for d, m in ms]
+            f32 = [d == 'float32' for d, _ in ms]
+            if any(fine) and any(f32):
+                out.append('full_precision_%s_beside_float32=%s' % (
+                    name, 'float32_first' if f32[0] else 'float64_first'))
     out.append('pc_width=%d' % len(ps[0]['pc'][0]))
     out.append('permuted_map=%s' % any(p['cm'] != sorted(p['cm']) for p in ps))
     sts = [M.spike_templates(p) for p in ps]
@@ -413,6 +488,16 @@ def _drop_template(p):
     return p
 
 
+def _remap_pre(pre, k):
+    """the history after probe k is removed from the input"""
+    out = []
+    for h in pre:
+        h2 = [j - 1 if j > k else j for j in h if j != k]
+        if h2:
+            out.append(h2)
+    return out
+
+
 def shrink(case):
     inp = case['inp']
     ps = inp['probes']
@@ -421,9 +506,21 @@ def shrink(case):
         j = copy.deepcopy(inp)
         j.update(kw)
         return {'kind': 'merge', 'inp': j}
+    pre = inp.get('pre') or []
     if len(ps) > 1:
         for k in range(len(ps)):
-            yield mk(probes=ps[:k] + ps[k + 1:])
+            yield mk(probes=ps[:k] + ps[k + 1:], pre=_remap_pre(pre, k))
+    if pre:
+        yield mk(pre=[])
+        if len(pre) > 1:
+            for i in range(len(pre)):
+                yield mk(pre=pre[:i] + pre[i + 1:])
+        for i, h in enumerate(pre):
+            for j in range(len(h)):
+                if len(h) > 1:
+                    yield mk(pre=pre[:i] + [h[:j] + h[j + 1:]] + pre[i + 1:])
+    if int(inp.get('again') or 1) > 1:
+        yield mk(again=1)
     # large probes: halve / cut the template and channel counts before anything else
     for k, p in enumerate(ps):
         nt, nc = len(p['tmpl']), len(p['cm'])
@@ -467,6 +564,16 @@ def shrink(case):
             yield mk(probes=ps[:k] + [dict(p, cm=list(range(len(p['cm']))), ncd=len(p['cm']))] + ps[k + 1:])
         if any(v != 0 for t in p['tmpl'] for r in t for v in r if v not in (0, 1)):
             yield mk(probes=ps[:k] + [dict(p, tmpl=[[[1 if v else 0 for v in r] for r in t] for t in p['tmpl']])] + ps[k + 1:])
+        for name in ('wm', 'wmi', 'sim'):
+            m = p.get(name)
+            if m is not None and any(v not in (0, 1) for r in m for v in r):
+                yield mk(probes=ps[:k] + [dict(p, **{name: [[1 if v else 0 for v in r] for r in m]})] + ps[k + 1:])
+                for i, r in enumerate(m):
+                    for j, v in enumerate(r):
+                        if v not in (0, 1) and len(m) * len(m) <= 16:
+                            m2 = [list(x) for x in m]
+                            m2[i][j] = 0
+                            yield mk(probes=ps[:k] + [dict(p, **{name: m2})] + ps[k + 1:])
         if any(r[1] != 0 for r in p['pos']):
             yield mk(probes=ps[:k] + [dict(p, pos=[[r[0], 0] for r in p['pos']])] + ps[k + 1:])
 
